@@ -22,6 +22,7 @@ import (
 
 func main() {
 	hk.Main(&hk.Component{Name: "frames", Rule: "(a) chunk-exact differential of sseutil.WriteEvent / formatSSEEvent against the model on payloads with CR, LF, U+2028, empty, trailing LF, large; " +
+		"(a') exact-size frames (2^k, 2^k±1, multiples of 4096, k·64 KiB) followed by a small frame on every server write path; POST-SSE streams of tools that emit 0..5 notifications through each sender entry point and end in each outcome: whole events only; " +
 		"(b) randomized stress with write-amplifying recording writers: stdio server (N concurrent requests + server-issued requests through the outgoing pump), Streamable GET stream (concurrent SendNotification / SendRequest), " +
 		"legacy SSE stream (responses + notifications + keep-alive comments), each byte stream parsed by a standards-conforming reference reader; non-trivial = a run in which at least two writers overlapped in time",
 		Run: run})
@@ -110,6 +111,8 @@ func run(c *hk.Ctx) {
 			}
 		}
 	}
+	exactSizes(c)
+	postSSEOutcomes(c)
 	stdioStress(c)
 	postSSEStress(c)
 	getStreamStress(c)
